@@ -337,4 +337,44 @@ def substXml (s : PStr) : PStr :=
     | some e => e.2
     | none => [ch]
 
+/-! ### entry points: resolve the `formatter=` argument, then render -/
+
+/-- which output method was called -/
+inductive Mode where
+  | decode                      -- `decode()`, `encode()`, `str()`, `output_ready()`
+  | contents                    -- `decode_contents()`, `encode_contents()`
+  | pretty (level : Nat)        -- `prettify()` = level 0, `decode(indent_level=level)`
+  | prettyContents (level : Nat) -- `decode_contents(indent_level=level)`
+deriving DecidableEq, Repr
+
+inductive Out where
+  | ok (s : PStr)
+  | keyError                    -- `formatter_for_name` raised
+  | badReceiver                 -- a contents method on a string (no such method)
+deriving DecidableEq, Repr
+
+def kidsOf : Node → Option (PStr × List Node)
+  | .tag nm _ _ _ _ ks => some (nm, ks)
+  | .str _ _ => none
+
+/-- an output method with an already resolved formatter -/
+def renderMode (c : Cfg) (interp : Subst → PStr → PStr) (mode : Mode) (parent : Option PStr) (n : Node) : Out :=
+  match mode with
+  | .decode => .ok (render c interp parent n)
+  | .pretty lv => .ok (pretty c interp lv parent n)
+  | .contents => match kidsOf n with
+    | some (nm, ks) => .ok (renderL c interp (some nm) ks)
+    | none => .badReceiver
+  | .prettyContents lv => match kidsOf n with
+    | some (nm, ks) => .ok (prettyL c interp lv (some nm) ks)
+    | none => .badReceiver
+
+/-- `Tag.decode(formatter=arg)` and friends (element.py:2370-2371 `if not isinstance(formatter, Formatter): formatter =
+    self.formatter_for_name(formatter)`), on an element of a tree of flavour `isXml` -/
+def entry (regH regX : List (Option PStr × Cfg)) (isXml : Bool) (arg : FmtArg) (interp : Subst → PStr → PStr) (mode : Mode)
+    (parent : Option PStr) (n : Node) : Out :=
+  match formatterForName regH regX isXml arg with
+  | .keyError => .keyError
+  | .ok c => renderMode c interp mode parent n
+
 end BS.Formatter
